@@ -57,6 +57,26 @@ type scenario struct {
 	Cfg     int      `json:"cfg"`                 // client logging configuration (cli.LogOpts4)
 	HW      int      `json:"hw,omitempty"`        // which hardware address the client has (hwAddrs): 6, 8 (EUI-64), 16 octets, 1 octet
 	Unicast bool     `json:"unicast_server_addr"` // the client is configured with WithServerAddr(<unicast>): it changes where the client sends, nothing else
+	Extra   int      `json:"extra_options,omitempty"` // further options the caller puts into its messages (extraMods); the scripted servers echo none of them
+}
+
+// extraMods: what callers commonly add to their DISCOVER and REQUEST -- a client identifier (type 1 + hardware address, or
+// type 255 + IAID + DUID), a maximum message size, a parameter request list, a user class, a client FQDN.  Which reply
+// completes an exchange depends on none of them.
+func extraMods(kind int, mac net.HardwareAddr) []dhcpv4.Modifier {
+	switch kind {
+	case 1:
+		return []dhcpv4.Modifier{dhcpv4.WithOption(dhcpv4.OptClientIdentifier(append([]byte{1}, mac...)))}
+	case 2:
+		return []dhcpv4.Modifier{
+			dhcpv4.WithOption(dhcpv4.OptClientIdentifier(append([]byte{255, 0, 0, 0, 1, 0, 3, 0, 1}, mac...))),
+			dhcpv4.WithOption(dhcpv4.OptMaxMessageSize(576)),
+			dhcpv4.WithRequestedOptions(dhcpv4.OptionSubnetMask, dhcpv4.OptionRouter, dhcpv4.OptionDomainNameServer, dhcpv4.OptionClasslessStaticRoute),
+			dhcpv4.WithOption(dhcpv4.OptGeneric(dhcpv4.OptionUserClassInformation, []byte{4, 'v', 'r', 'f', 'y'})),
+			dhcpv4.WithOption(dhcpv4.OptGeneric(dhcpv4.OptionFQDN, append([]byte{1, 0, 0}, "verif-host.example."...))),
+		}
+	}
+	return nil
 }
 
 // notype: a plain BOOTP reply (no option 53); badtype: option 53 with two octets; inform: a message type no exchange
@@ -71,6 +91,9 @@ func genScenario(rng *rand.Rand, maxServers, maxReact int) scenario {
 	sc := scenario{Bcast: rng.IntN(2) == 0, Cfg: rng.IntN(cli.NCfg), Unicast: rng.IntN(3) == 0}
 	if rng.IntN(3) == 0 {
 		sc.HW = 1 + rng.IntN(3)
+	}
+	if rng.IntN(2) == 0 {
+		sc.Extra = 1 + rng.IntN(2)
 	}
 	ns := rng.IntN(maxServers + 1)
 	for s := 0; s < ns; s++ {
@@ -431,6 +454,7 @@ func run(t *testing.T, sc scenario) (o outcome) {
 			mods = append(mods, dhcpv4.WithBroadcast(true))
 		}
 		mods = append(mods, dhcpv4.WithOption(dhcpv4.OptHostName("verif-host")), dhcpv4.WithOption(dhcpv4.OptClassIdentifier("verif-class")), dhcpv4.WithOption(dhcpv4.OptGeneric(dhcpv4.GenericOptionCode(230), []byte{1, 2, 3})))
+		mods = append(mods, extraMods(sc.Extra, w.mac)...)
 		reqStart := time.Now()
 		o.lease, o.reqErr = c.Request(ctx, mods...)
 		o.reqTook = time.Since(reqStart)
